@@ -359,8 +359,9 @@ META = dict(
                "the COB-ID word (frame format) is not modelled; the library ignores it.",
     bounds=dict(quick="RPDO and TPDO, PDO numbers 1 and 512, k in {0,1,3} mapped objects, optional sub-entries all present "
                       "/ only 1-2 / 1,2,5,6, device blank or enabled with a different mapping; dictionary-sourced read (DCF value / "
-                      "default); predefined COB-IDs for PDO 1..5",
-                thorough="PDO numbers 1,2,4,5,512, k = 0..8, four optional-sub-entry variants"),
+                      "default); predefined COB-IDs for PDO 1..5; RemoteNode.load_configuration for PDO 1 and 512 against the "
+                      "strict device together with ordinary objects",
+                thorough="PDO numbers 1,2,4,5,512, k = 0..8, four optional-sub-entry variants; load_configuration for PDO 1,2,256,257,511,512"),
     outside_bounds=["devices with a fixed (read-only) mapping count (the library's workaround path)", "curtis_hack",
                     "COB-ID bit 29"],
     assumptions=["strict device rules from CiA 301 7.5.2.35/36 (mapping procedure)"],
